@@ -89,6 +89,10 @@ def run(rep, tier, seed):
             pass   # text classes on a shape without text: no text element, no rule expected
         xml = stylesc.document(used, with_text, root=c["root"])
         cfg = {"add_auto_styles": c["on"], "theme": THEMES[j % 6]}
+        if j % 3 == 0:
+            cfg["background"] = "lightgrey"     # a setting that only matters when styles are injected
+        if j % 5 == 0:
+            cfg["font_family"] = "serif"
         if c["local"]:
             cfg["use_local_styles"] = True
         cases.append({"k": f"c20-{j}", "xml": xml, "cfg": cfg, "case": c, "mode": "reduced"})
